@@ -12,6 +12,7 @@
 #define VF_MAIN
 #include "vf.h"
 #include "../C06/igpf.h"
+#include "../C06/pf_nest.h"
 #include <cfloat>
 #include <climits>
 #include <cmath>
@@ -725,11 +726,24 @@ static void stress_run(uint64_t idx)
 }
 VF_SUITE(stress, stress_count, stress_run)
 
+// ---------------------------------------------------------------- suite 4: re-entrancy — the output callback formats through the engine
+// (../C06/pf_nest.h) every (outer, inner) pair with at least one floating call; the inner call is injected at every
+// callback invocation of the outer one (padding, sign, digits, exponent); both streams and return values must be unchanged.
+static uint64_t reent_count() { return enabled("reentrant") ? pf::reentrancy_count() : 0; }
+static void reent_run(uint64_t idx)
+{
+    if (pf::skip_after_hangs())
+        return;
+    pf::reentrancy_run(idx, true, 0xC13E);
+}
+VF_SUITE(reentrant, reent_count, reent_run)
+
 extern "C" void vf_setup()
 {
     pf::setup();
     if (only_suite() && *only_suite())
         return;
+    vf::require("re-entrancy: outer and inner stream and return value unchanged by the overlap");
     for (const char *c : {"terminates with bounded output, return == characters emitted (every class of double)",
                           "non-finite argument: terminates, no sanitizer report, return == emitted",
                           "finite: ISO C shape of the directive (sign, padding, point, digit counts, exponent, g style)",
